@@ -212,16 +212,17 @@ def judge(case, ibc, answers):
         B = [row[:-1] for row in _F(case)[:-1]]
         if len(B) >= 2:
             mb = decode(C.mrun([[1401] + C.eQmat(B)])[0])
-            if mb['tfree'] and mb['rclear'] and mb['fuzzy']:
+            # the property speaks about ERGODIC matrices: they stay fuzzy-ergodic when isolated states are added
+            if mb['tfree'] and mb['rclear'] and mb['erg']:
                 base_fuzzy = True
                 if not m['fuzzy']:
                     probs.append({'kind': 'model-vs-spec', 'cfg': '-', 'finding': None,
-                                  'what': 'model: adding an isolated state destroys fuzzy ergodicity'})
+                                  'what': 'model: adding an isolated state to an ergodic matrix destroys fuzzy ergodicity'})
     for cfg, r in ibc.items():
         def P(kind, what):
             probs.append({'kind': kind, 'cfg': cfg, 'what': what, 'finding': None})
         if base_fuzzy and r['fuzzy'] is not True:
-            P('impl-property', 'fuzzy-ergodic matrix is no longer fuzzy-ergodic after adding an isolated %s state' % case['style'].split('-')[1])
+            P('impl-property', 'ergodic matrix is not fuzzy-ergodic after adding an isolated %s state' % case['style'].split('-')[1])
         # property-level implications on the implementation alone
         if r['erg'] is True and r['fuzzy'] is not True:
             P('impl-property', 'reported ergodic but not fuzzy-ergodic')
